@@ -21,6 +21,7 @@ mod refparse;
 mod runner;
 mod scenario;
 mod sim;
+mod wire;
 
 use runner::*;
 use std::collections::BTreeMap;
